@@ -617,7 +617,15 @@ impl Stream {
         let group = self.consumer_groups.get_group(group_name)
             .ok_or_else(|| format!("NOGROUP No such consumer group {} for stream", group_name))?;
         
-        let claimed_ids = group.claim_messages(consumer, min_idle_ms, ids, force, justid);
+        // A pending ID whose entry was deleted from the stream cannot be claimed:
+        // it is dropped from the pending list instead
+        let (ids, deleted): (Vec<StreamId>, Vec<StreamId>) = {
+            let data = self.data.lock().unwrap();
+            ids.iter().partition(|id| data.entries.binary_search_by(|e| e.id.cmp(id)).is_ok())
+        };
+        group.acknowledge(&deleted);
+        
+        let claimed_ids = group.claim_messages(consumer, min_idle_ms, &ids, force, justid);
         
         // Get the actual entries for claimed IDs
         let data = self.data.lock().unwrap();
